@@ -616,6 +616,7 @@ class ExprMixin:
             d |= deps_of(x)
         self._last_unknown = Unknown(d, ty="bool")
         if not record:
+            self.event(st, fr, "cmp", node, (None, val))
             return [(st, None)]
         sa, sb = st, st.fork()
         self.budget()
